@@ -121,6 +121,12 @@ impl Script {
     }
 }
 
+/// build a seed; a scripted step that fails (for instance because the tree under test is broken)
+/// makes the seed unavailable instead of aborting the run
+pub fn try_seed(f: impl FnOnce() -> Sim) -> Option<Sim> {
+    mwsim::world::guarded(f).ok()
+}
+
 /// due time of the pending batch according to the reference model
 pub fn pending_due(s: &Sim) -> u64 {
     s.m.batches[&s.m.pending].due
